@@ -17,3 +17,17 @@ func VerifNewWithExpired[K comparable, V any](defaultExpiration time.Duration, e
 	}
 	return &Cache[K, V]{cache: zcache.NewFrom[K, V](defaultExpiration, 0, items)}
 }
+
+// VerifExpire plays "the TTL of this entry ran out": the entry is still stored
+// but its expiry instant lies in the past, so the real Get treats it as absent.
+func (c *Cache[K, V]) VerifExpire(key K) {
+	if v, ok := c.cache.Get(key); ok {
+		c.cache.SetWithExpire(key, v, time.Nanosecond)
+		// (the executor's clock is fixed: make the instant absolute and ancient)
+		items := c.cache.Items()
+		it := items[key]
+		it.Expiration = 1
+		items[key] = it
+		c.cache = zcache.NewFrom[K, V](zcache.NoExpiration, 0, items)
+	}
+}
